@@ -123,9 +123,10 @@ class Run:
 
     def grep_gate(self):
         bad = []
-        for p in sorted(COQ.rglob("*.v")):
-            if ".work" in p.parts:
-                continue
+        files = []
+        for d in ("Core", "Gen", "Model", "Proofs", "Props"):     # exactly what _CoqProject lists
+            files += sorted((COQ / d).glob("*.v"))
+        for p in files:
             src = strip_coq_comments(p.read_text())
             for m in FORBIDDEN.finditer(src):
                 bad.append("%s: %s" % (p.relative_to(COQ), m.group(0)))
